@@ -72,6 +72,31 @@ Case gen_C09(uint64_t seed, long run, const GenCfg &g, const char *inflight) {
     char same = r.chance(0.35) ? gen_dtype(r) : 0;
     for (int i = 0; i < nt; i++) c.tasks.push_back(gen_task(r, g.thorough, same));
     c.sched_seed = r.next();
+    // "same routine at the same time": in 15 % of the concurrent runs (own stream) every task is the same precision and runs the same
+    // kind of call - incomplete LU with a tight fill quota (secondary dropping, quick-select / interpolation), or the expert driver with
+    // refinement and condition estimate, or the pipeline - so that rarely taken branches are occupied by two tasks at once
+    {
+        Rng rh(mix3(seed, 0x0909F0C5, (uint64_t)run));
+        if (!history_mode && rh.chance(0.15)) {
+            char dt = gen_dtype(rh); bool cplx = (dt == 'c' || dt == 'z'); int focus = (int)rh.below(4);
+            for (auto &t : c.tasks) {
+                TaskPlan q; q.dtype = dt; for (int k = 0; k < 7; k++) q.tuning[k] = t.tuning[k]; q.garbage = G_ZERO;
+                int nmax = g.thorough ? 60 : 32;
+                q.mats.push_back(gen_matrix(rh, 8, nmax, false, cplx)); q.mats.push_back(q.mats[0]);
+                Op nw; nw.kind = "new"; nw.mat = 0; q.ops.push_back(nw);
+                Op o; gen_options(rh, o, true, cplx);
+                if (focus <= 1) { o.kind = "gsisx"; o.fact = DOFACT; gen_ilu_options(rh, o);
+                    static const int rules[] = {DROP_BASIC | DROP_AREA, DROP_BASIC | DROP_AREA | DROP_DYNAMIC, DROP_BASIC | DROP_PROWS, DROP_BASIC | DROP_COLUMN | DROP_INTERP, DROP_BASIC | DROP_AREA | DROP_INTERP};
+                    o.droprule = rules[rh.below(5)]; o.fillfactor = rh.chance(0.5) ? 1.5 : 2.0; o.droptol = rh.chance(0.5) ? 1e-4 : 1e-8; if (rh.chance(0.5)) o.rowperm = NOROWPERM; }
+                else if (focus == 2) { o.kind = "gssvx"; o.fact = DOFACT; o.refine = SLU_DOUBLE; o.condnum = 1; o.pivgrowth = 1; o.equil = 1; if (o.nrhs == 0) o.nrhs = 2; }
+                else { o.kind = "pipe"; o.stages = 15; o.equil = 0; if (o.nrhs == 0) o.nrhs = 1; }
+                q.ops.push_back(o);
+                Op d; d.kind = "destroy"; q.ops.push_back(d); Op d1; d1.kind = "destroy"; d1.slot = 1; q.ops.push_back(d1);
+                t = q;
+            }
+            c.note = "focus";
+        }
+    }
     double u = r.unit();
     c.sched_mode = u < 0.75 ? SM_SLICES : SM_PCT;
     // slice-length mixture drawn per run: fine (inner-loop interleavings), medium, coarse (call-level orders)
@@ -140,7 +165,7 @@ RunOutcome exec_C09(const Case &c) {
         return out;
     }
     // ---- compare the concurrent run with the solo runs ----
-    out.stats["concurrent_runs"] += 1; out.stats["tasks"] += nt;
+    out.stats["concurrent_runs"] += 1; out.stats["tasks"] += nt; if (c.note == "focus") out.stats["concurrent_runs_same_call_focus"] += 1;
     out.stats["preempt_switches"] += (double)cr.sched.switches; out.stats["preempt_switches_in_library"] += (double)cr.sched.switches_in_library;
     out.stats["max_switches_per_run"] = (double)cr.sched.switches;
     out.stats[c.sched_mode == SM_PCT ? "sched_pct_runs" : "sched_slice_runs"] += 1;
